@@ -18,6 +18,7 @@ MODULES = {
     "C06": "c06",
     "C16": "c16",
     "C15": "c15",
+    "C07": "c07",
     "C08": "c08",
     "C09": "c09",
     "C19": "c19",
